@@ -84,7 +84,11 @@ impl SampleStreamTrack {
 
     /// Stop this track by marking it as ended
     pub fn stop(&self) {
+        #[cfg(rustrtc_verif)]
+        crate::verif_sched::yield_point(crate::verif_sched::STOP_STORE_ENDED);
         self.ended.store(true, std::sync::atomic::Ordering::SeqCst);
+        #[cfg(rustrtc_verif)]
+        crate::verif_sched::yield_point(crate::verif_sched::STOP_NOTIFY);
         self.notify.notify_waiters();
     }
 }
@@ -152,6 +156,8 @@ pub fn sample_track(
 
 impl Clone for SampleStreamSource {
     fn clone(&self) -> Self {
+        #[cfg(rustrtc_verif)]
+        crate::verif_sched::yield_point(crate::verif_sched::SRC_CLONE_FETCH_ADD);
         self.active_senders
             .fetch_add(1, std::sync::atomic::Ordering::Relaxed);
         Self {
@@ -169,12 +175,16 @@ impl Clone for SampleStreamSource {
 
 impl SampleStreamSource {
     fn try_send_drop_oldest(&self, sample: MediaSample) -> MediaResult<()> {
+        #[cfg(rustrtc_verif)]
+        crate::verif_sched::yield_point(crate::verif_sched::SRC_LOAD_CLOSED);
         if self.source_closed.load(Ordering::Acquire) {
             return Err(MediaError::Closed);
         }
 
         let sample = match self.queue.push(sample) {
             Ok(()) => {
+                #[cfg(rustrtc_verif)]
+                crate::verif_sched::yield_point(crate::verif_sched::SRC_NOTIFY_ONE);
                 self.notify.notify_one();
                 return Ok(());
             }
@@ -182,6 +192,8 @@ impl SampleStreamSource {
         };
 
         // Queue full: try drop-oldest under a short critical section.
+        #[cfg(rustrtc_verif)]
+        crate::verif_sched::yield_point(crate::verif_sched::SRC_TRY_LOCK);
         let _pop_guard = match self.pop_lock.try_lock() {
             Some(guard) => guard,
             None => return Ok(()),
@@ -189,9 +201,13 @@ impl SampleStreamSource {
 
         let _ = self.queue.pop();
         if self.queue.push(sample).is_ok() {
+            #[cfg(rustrtc_verif)]
+            crate::verif_sched::yield_point(crate::verif_sched::SRC_NOTIFY_ONE);
             self.notify.notify_one();
         }
 
+        #[cfg(rustrtc_verif)]
+        crate::verif_sched::yield_point(crate::verif_sched::SRC_UNLOCK);
         Ok(())
     }
 
@@ -254,6 +270,8 @@ impl SampleStreamSource {
                 actual: sample.kind(),
             });
         }
+        #[cfg(rustrtc_verif)]
+        crate::verif_sched::yield_point(crate::verif_sched::SRC_LOAD_CLOSED);
         if self.source_closed.load(Ordering::Acquire) {
             return Err(MediaError::Closed);
         }
@@ -261,6 +279,8 @@ impl SampleStreamSource {
         self.queue
             .push(sample)
             .map_err(|_| MediaError::WouldBlock)?;
+        #[cfg(rustrtc_verif)]
+        crate::verif_sched::yield_point(crate::verif_sched::SRC_NOTIFY_ONE);
         self.notify.notify_one();
         Ok(())
     }
@@ -278,12 +298,18 @@ impl SampleStreamSource {
 
 impl Drop for SampleStreamSource {
     fn drop(&mut self) {
+        #[cfg(rustrtc_verif)]
+        crate::verif_sched::yield_point(crate::verif_sched::SRC_DROP_FETCH_SUB);
         if self
             .active_senders
             .fetch_sub(1, std::sync::atomic::Ordering::AcqRel)
             == 1
         {
+            #[cfg(rustrtc_verif)]
+            crate::verif_sched::yield_point(crate::verif_sched::SRC_DROP_STORE_CLOSED);
             self.source_closed.store(true, Ordering::Release);
+            #[cfg(rustrtc_verif)]
+            crate::verif_sched::yield_point(crate::verif_sched::SRC_DROP_NOTIFY);
             self.notify.notify_waiters();
         }
     }
@@ -493,24 +519,44 @@ impl MediaStreamTrack for SampleStreamTrack {
 
     async fn recv(&self) -> MediaResult<MediaSample> {
         loop {
+            #[cfg(rustrtc_verif)]
+            crate::verif_sched::yield_point(crate::verif_sched::RECV_LOAD_ENDED);
             if self.ended.load(Ordering::SeqCst) {
                 return Err(MediaError::EndOfStream);
             }
 
             {
+                #[cfg(rustrtc_verif)]
+                crate::verif_sched::yield_point(crate::verif_sched::RECV_LOCK);
                 let _pop_guard = self.pop_lock.lock();
                 if let Some(sample) = self.queue.pop() {
+                    #[cfg(rustrtc_verif)]
+                    crate::verif_sched::yield_point(crate::verif_sched::RECV_UNLOCK_RET);
                     return Ok(sample);
                 }
 
+                #[cfg(rustrtc_verif)]
+                crate::verif_sched::yield_point(crate::verif_sched::RECV_LOAD_CLOSED1);
                 if self.source_closed.load(Ordering::Acquire) {
+                    #[cfg(rustrtc_verif)]
+                    crate::verif_sched::yield_point(crate::verif_sched::RECV_STORE_ENDED1);
                     self.ended.store(true, Ordering::SeqCst);
+                    #[cfg(rustrtc_verif)]
+                    crate::verif_sched::yield_point(crate::verif_sched::RECV_UNLOCK_EOS);
                     return Err(MediaError::EndOfStream);
                 }
+                #[cfg(rustrtc_verif)]
+                crate::verif_sched::yield_point(crate::verif_sched::RECV_UNLOCK_WAIT);
             }
 
+            #[cfg(rustrtc_verif)]
+            crate::verif_sched::yield_point(crate::verif_sched::RECV_NOTIFIED);
             self.notify.notified().await;
+            #[cfg(rustrtc_verif)]
+            crate::verif_sched::yield_point(crate::verif_sched::RECV_LOAD_CLOSED2);
             if self.source_closed.load(Ordering::Acquire) && self.queue.is_empty() {
+                #[cfg(rustrtc_verif)]
+                crate::verif_sched::yield_point(crate::verif_sched::RECV_STORE_ENDED2);
                 self.ended.store(true, Ordering::SeqCst);
                 return Err(MediaError::EndOfStream);
             }
